@@ -62,6 +62,8 @@ def gen_history(rng):
                     hist.append(["spawn", p, z, None, rng.choice(["Tgid:\t1", "Tgid:\t%d" % (p + 1), "Pid:\t1", "Tgid:\t99999"])])
                 else:
                     hist.append(["spawn", p, z])
+                if rng.random() < 0.2:
+                    hist.append(["otheruser", p])        # not ours: kill(pid, 0) and kill(tid, 0) answer EPERM
                 state[p] = "zombie" if z else "live"
         elif r < 0.18:
             if state[p] == "live":
@@ -140,6 +142,9 @@ def run_history(hist, acc):
         elif k == "thread":
             if op[1] in t.procs:
                 w.apply(tuple(op))
+        elif k == "otheruser":
+            t.deny_kill.add(op[1])
+            acc.count("processes_of_another_user")
         elif k == "respawn":
             if op[1] in t.procs:
                 w.apply(("vanish", op[1]))
@@ -148,7 +153,7 @@ def run_history(hist, acc):
     with w:
         for idx, op in enumerate(hist):
             k = op[0]
-            if k in ("spawn", "exit", "reap", "vanish", "thread", "respawn"):
+            if k in ("spawn", "exit", "reap", "vanish", "thread", "respawn", "otheruser"):
                 table_op(op)
             elif k == "pids":
                 rec = w.apply(("pids",))
@@ -651,6 +656,44 @@ def run_probe_race(acc):
         acc.case(dict(kind="probe_race", attrs=attrs, file=victim_file), True, viols)
 
 
+def run_flag_then_clear(acc):
+    """"an entry whose PID was found recycled by is_running() is replaced by a fresh object" - also when a half consumed
+    iterator is still alive and cache_clear() is called in between: the flag belongs to the stale object, not to the cache."""
+    env = setup()
+    ps, H = env["ps"], env["H"]
+    for consume in (0, 1, 2):
+        for clear_when in ("before_flag", "after_flag", "never"):
+            w = H.World(ps)
+            viols = []
+            with w:
+                for pid in (7, 8, 9):
+                    w.apply(("spawn", pid, False))
+                first = {p.pid: p for p in ps.process_iter()}
+                stale = first[8]
+                w.t.remove(8)
+                w.t.spawn(8, 7000, ppid=1, comm=b"newcomer")
+                it = ps.process_iter()                      # a consumer that stops half-way and finishes later
+                for _ in range(consume):
+                    next(it)
+                if clear_when == "before_flag":
+                    ps.process_iter.cache_clear()
+                flagged = stale.is_running() is False
+                if clear_when == "after_flag":
+                    ps.process_iter.cache_clear()
+                rest = list(it)
+                del rest
+                acc.count("flag_then_clear_cases")
+                later = [list(ps.process_iter()) for _ in range(3)]
+                bad = [n for n, ls in enumerate(later) if any(p is stale for p in ls)]
+                # (one omission right after the flagging is the known `after_flagged_reuse` behaviour; a stale object handed out
+                # again and again is not)
+                if flagged and len(bad) >= 2:
+                    viols.append(("stale_object_yielded_after_it_was_found_recycled",
+                                  f"consume={consume} cache_clear={clear_when}: the object found recycled by is_running() is still "
+                                  f"yielded by calls {bad} of 3 later process_iter() calls"))
+            acc.case(dict(kind="flag_then_clear", consume=consume, clear=clear_when), True, viols)
+
+
 # ---- live kernel ---------------------------------------------------------------------------------------------
 
 def run_live(shard, acc):
@@ -775,6 +818,7 @@ def fixed_histories():
     out = []
     for n in SPECIAL + [7, 8, 100, 101, 55]:
         out.append([["spawn", 7, False], ["thread", 7, 100], ["pidex", n], ["pids"]])
+        out.append([["spawn", 7, False], ["otheruser", 7], ["thread", 7, 100], ["pidex", n], ["pidex", 100], ["pidex", 7], ["pids"]])
     for name in ("Tgid:\t100", "Tgid:\t7", "Tgid:\t1", "x\rTgid:\t100"):
         out.append([["spawn", 7, False], ["thread", 7, 100, name], ["pidex", 100], ["pidex", 7], ["pids"], ["iter", None, None, None]])
         out.append([["spawn", 7, False, None, name], ["spawn", 8, False, None, "Tgid:\t1"], ["pidex", 7], ["pidex", 8], ["pids"],
@@ -807,6 +851,7 @@ def run_shard(shard):
         for h in fixed_histories():
             run_history(h, acc)
         run_probe_race(acc)
+        run_flag_then_clear(acc)
         run_pid_exists_faults(acc)
     elif k == "threads":
         for i in range(shard["count"]):
@@ -841,6 +886,8 @@ def run_shard(shard):
                 run_live({}, acc)
             elif case.get("kind") == "probe_race":
                 run_probe_race(acc)
+            elif case.get("kind") == "flag_then_clear":
+                run_flag_then_clear(acc)
             elif case.get("kind") == "pid_exists_fault":
                 run_pid_exists_faults(acc)
             else:
